@@ -824,6 +824,45 @@ C09_SP_VARIANCE = dict(
     _C09_METHOD, func="predict_conditional_variance", name="src_sp_predict_conditional_variance",
     params=[("self", "sparse_theta"), ("data", "pydata")], vars={"v": "vec"},
     prims=_C09_THETA_ATTRS + _C09_DATA_ATTRS + _C09_VARIANCE)
+# models/main.py predict_*_all / predict_*_avg.  `thetas` is the model's holder (declared n_thetas, stored samples); the three
+# Theta methods are the parameter pm (kind -> sample -> data -> result): ANY implementation; the linking theorems take the one
+# that dispatches to the translated methods above.
+_C09_MAIN = dict(
+    _C09, file="src/batchie/models/main.py", pyparams=["screen", "thetas"],
+    params=[("pm", "kind -> theta -> pydata -> result vec"), ("screen", "pydata"), ("thetas", "holder")])
+_C09_TH = {"t": "theta", "d": "pydata"}
+_C09_MAIN_PRIMS = _C09_DATA_ATTRS + [
+    ("__h.n_thetas", "Z.of_nat (h_n {h})", "Z", {"h": "holder"}),                              # the declared number of samples
+    ("__h.get_theta(__i)", "!holder_get {h} {i}", "theta", {"h": "holder", "i": "Z"}),
+    ("__t.predict_viability(__d)", "!pm KViab {t} {d}", "vec", _C09_TH),
+    ("__t.predict_conditional_mean(__d)", "!pm KMean {t} {d}", "vec", _C09_TH),
+    ("__t.predict_conditional_variance(__d)", "!pm KVar {t} {d}", "vec", _C09_TH),
+    ("np.zeros((__n, __m), dtype=FloatingPointType)", "np_zeros2 {n} {m}", "mat", {"n": "Z", "m": "Z"}),
+    ("np.zeros((__n,), dtype=FloatingPointType)", "np_zeros1 {n}", "vec", {"n": "Z"}),
+    ("__a[__i, :]", "!np_row {a} {i}", "vec", {"a": "mat", "i": "Z"}),
+    ("np.isnan(__x).any()", "vec_has_nan {x}", "bool", {"x": "vec"}),                          # no NaN over the rationals
+    ("np.any(np.isnan(__x))", "vec_has_nan {x}", "bool", {"x": "vec"}),
+    ("__x.size", "vec_size {x}", "Z", {"x": "vec"}),
+    ("np.stack(__l, dtype=FloatingPointType)", "!np_stack {l}", "mat", {"l": "list vec"}),
+    ("__a + __b", "vadd {a} {b}", "vec", {"a": "vec", "b": "vec"}),
+    ("__x / __n", "!np_div_int {x} {n}", "vec", {"x": "vec", "n": "Z"}),
+]
+_C09_MAIN_RAISES = [("NaN predictions were created", 7), ("not the same size as the screen", 8)]
+_C09_ALL_ROWS = dict(
+    _C09_MAIN, returns="mat", vars={"result": "mat", "theta_index": "Z", "theta": "theta"}, prims=_C09_MAIN_PRIMS,
+    assign_effects=[("result[__i, :] = __v", "result'", "!np_set_row {state} {i} {v}")], raises=_C09_MAIN_RAISES)
+C09_VIABILITY_ALL = dict(_C09_ALL_ROWS, func="predict_viability_all", name="src_predict_viability_all")
+C09_MEAN_ALL = dict(_C09_ALL_ROWS, func="predict_mean_all", name="src_predict_mean_all")
+C09_VARIANCE_ALL = dict(
+    _C09_MAIN, func="predict_variance_all", name="src_predict_variance_all", returns="mat",
+    # `result` is one sample's variance vector inside the loop and the stacked matrix after it
+    vars={"results": "list vec", "result": "vec | mat", "theta_index": "Z", "theta": "theta"},
+    prims=_C09_MAIN_PRIMS, raises=_C09_MAIN_RAISES)
+_C09_AVG = dict(_C09_MAIN, returns="vec", vars={"result": "vec", "sub_result": "vec", "theta_index": "Z", "theta": "theta"},
+                prims=_C09_MAIN_PRIMS, raises=_C09_MAIN_RAISES)
+C09_MEAN_AVG = dict(_C09_AVG, func="predict_mean_avg", name="src_predict_mean_avg")
+C09_VIABILITY_AVG = dict(_C09_AVG, func="predict_viability_avg", name="src_predict_viability_avg")
 C09_ALL = [C09_COPY_ZERO, C09_DATA_SIZE, C09_DATA_ARITY, C09_PREDICT, C09_PREDICT_SINGLE,
-           C09_SP_VIABILITY, C09_SP_MEAN, C09_SP_VARIANCE]
+           C09_SP_VIABILITY, C09_SP_MEAN, C09_SP_VARIANCE,
+           C09_VIABILITY_ALL, C09_MEAN_ALL, C09_VARIANCE_ALL, C09_MEAN_AVG, C09_VIABILITY_AVG]
 ALL += C09_ALL
